@@ -190,6 +190,17 @@ def check(ctx):
     ctx.ob('C09.R3.root-iterates-root-list', 'search', ok,
            'at ply 0 the node iterates Search::_root_moves (and only there)', site=s.loc())
 
+    # the root PV head (hence bestmove) is an element of the root list: nothing else can be written into a PV (C05.R3/R4)
+    from rules.common import SubCtx
+    import props.C05 as c05
+    sub = SubCtx(ctx)
+    c05.check(sub)
+    bad = [r for r in sub.results if not r[2] and (r[0].startswith('C05.R3') or r[0].startswith('C05.R4'))]
+    ctx.ob('C09.R3.answer-from-root-list', 'bestmove', not bad,
+           'the move answered is the head of the root PV, which can only hold root-list moves: table moves are used only after a '
+           'membership test in the node\'s list and PV writers take moves from that list (C05.R3, C05.R4)%s'
+           % ('' if not bad else ' — refuted: ' + '; '.join('%s at %s' % (r[0], r[4]) for r in bad)), site=bad[0][4] if bad else s.loc())
+
     # ---- R4 termination measures ---------------------------------------------------------------
     n_rec = 0
     for f in (s, q):
